@@ -432,6 +432,42 @@ class LdaSeam(object):
     return False
 
 
+class PinvhSeam(object):
+  """scipy.linalg.pinvh as seen from metric_learn/covariance.py: in fault mode its
+  first call raises LinAlgError (what LAPACK's eigen-solver does when it does not
+  converge).  A fit that propagates the error promises nothing; a fit that returns
+  has to return the (pseudo-)inverse covariance all the same."""
+
+  def __init__(self, fail_first=False):
+    self.fail_first = fail_first
+    self.fired = 0
+    self.calls = 0
+
+  def __enter__(self):
+    import scipy.linalg as sl
+    self.sl = sl
+    self.orig = sl.pinvh
+    seam = self
+
+    def pinvh(*a, **k):
+      try:
+        caller = sys._getframe(1).f_code.co_filename.replace("\\", "/")
+      except Exception:
+        caller = ""
+      if caller.endswith("metric_learn/covariance.py"):
+        seam.calls += 1
+        if seam.fail_first and seam.calls == 1:
+          seam.fired += 1
+          raise np.linalg.LinAlgError("simulated: eigenvalues did not converge")
+      return seam.orig(*a, **k)
+    sl.pinvh = pinvh
+    return self
+
+  def __exit__(self, *exc):
+    self.sl.pinvh = self.orig
+    return False
+
+
 # ------------------------------------------------------------------ clock seam
 
 class SimClock(object):
